@@ -40,6 +40,10 @@ def headerGet (req : Req) (name : Name) : List UInt8 := firstValue (headerValues
 def headerKey (names : List Name) (req : Req) : List UInt8 :=
   (names.map (headerValues req)).flatMap firstValue
 
+/-- `policy header` needs at least one header name: the upstream block parser refuses the line otherwise
+(`Header.Select` returns nil for every request when it has no names) -/
+def headerConfigOk (names : List Name) : Bool := !names.isEmpty
+
 /-- `staticUpstream.Select` with the header policy: no value → shared round robin, else hash of the value -/
 def headerUpstreamSelect (names : List Name) (p : Pool) (robin : Nat) (req : Req) : Option Nat × Nat :=
   let key := headerKey names req
